@@ -59,6 +59,13 @@ impl Validation {
          ensures="""
             all_off(r.validation),
          """),
+    dict(kind="fn", file=EMF, impl=r"^impl EmfBuilder$", name="allow_ignored_dimensions", ret="r",
+         ensures="""
+            // C08: the ignore-dimensions option is exactly what was configured last (not sticky), nothing else is touched
+            r.allow_ignored_dimensions == allow,                                   // OBL ignore_dimensions_is_the_last_setting
+            r.validation == self.validation, r.default_dimensions == self.default_dimensions, r.namespaces == self.namespaces,
+            r.extra_directives == self.extra_directives, r.log_group_name == self.log_group_name,
+         """),
     dict(kind="fn", file=EMF, impl=r"^impl EmfBuilder$", name="skip_all_validations", ret="r",
          rules={"R6": 3, "R7": 1},
          ensures="""
